@@ -443,6 +443,17 @@ def run(ctx):
                 ctx.inst('T5', 'ParseInfo::validate#dominates', dom, 'tileset validation %s the Ok return of ParseInfo::validate'
                          % ('dominates' if dom else 'does NOT dominate'), c.span, key=pv.name + '|T5|dominates')
         literal_arms += 1
+        # every decoded tileset chunk reaches that validation: TilesetsById::add stores its argument unconditionally under its own id (a
+        # "keep the first" insert, seed C15-k, drops a later external-only redefinition before it can be refused)
+        ab = ctx.anchor('asefile::tileset::TilesetsById::add')
+        if ab is not None:
+            ins = q.calls(ab, 'std::collections::HashMap::insert')
+            muts = [q.callee_name(c_) for c_ in q.calls(ab) if q.callee_name(c_).startswith('std::collections::') and
+                    q.callee_name(c_).split('::')[-1] in ('entry', 'or_insert', 'or_insert_with', 'remove', 'retain', 'try_insert', 'contains_key', 'get')]
+            ok = len(ins) == 1 and not muts and is_param(q.arg_terms(ins[0])[2], 2) and q.must_pass(ab, 0, ins[0].bb)
+            ctx.inst('T5', 'TilesetsById::add', ok, 'add(tileset): %s; must be one unconditional insert of the tileset (a later chunk with the same id replaces, '
+                     'never silently loses to, an earlier one)' % ('insert(.., tileset)' if ok else 'inserts %d, other map calls %s' % (len(ins), muts)), ab.span,
+                     key=ab.name + '|T5|add')
 
     # chain: decoders' callers up to read_aseprite all propagate (P8 on the whole LOAD cone)
     nsites = common.error_discipline(ctx, [fx.by_path[p] for p in sorted(load)])
